@@ -254,6 +254,24 @@ func keyCases(r *rand.Rand, wrap func(keys A) interface{}) []pcase {
 		k["publicKeyJwk"] = v.jwk
 		out = append(out, pcase{fmt.Sprintf("key-jwk-kty-spelling-%d", j), wrap(A{k}), v.valid})
 	}
+	// key material under a member name the protocol does not know (with and without the known ones)
+	for j, ty := range []string{"Ed25519VerificationKey2018", "Ed25519VerificationKey2020", "EcdsaSecp256k1VerificationKey2019", "X25519KeyAgreementKey2019", "JsonWebKey2020"} {
+		ty := ty
+		mut(fmt.Sprintf("key-multibase-only-%d", j), func(k M) {
+			k["type"] = ty
+			delete(k, "publicKeyJwk")
+			delete(k, "publicKeyBase58")
+			delete(k, "purposes")
+			k["publicKeyMultibase"] = "z6MkhaXgBZDvotDkL5257faiztiGiC2QtKLGpbnnEGta2doK"
+		})
+		mut(fmt.Sprintf("key-multibase-next-to-base58-%d", j), func(k M) {
+			k["type"] = ty
+			delete(k, "publicKeyJwk")
+			delete(k, "purposes")
+			k["publicKeyBase58"] = "GY4GunSXBPBfhLCzDL7iGmP5dR3sBDCJZkkaGK8VgYQf"
+			k["publicKeyMultibase"] = "z6MkhaXgBZDvotDkL5257faiztiGiC2QtKLGpbnnEGta2doK"
+		})
+	}
 	mut("key-jwk-not-object", func(k M) { delete(k, "publicKeyBase58"); k["publicKeyJwk"] = "jwk" })
 	mut("key-base58-with-jsonwebkey2020", func(k M) {
 		k["type"] = "JsonWebKey2020"
@@ -366,6 +384,13 @@ func genPatchCases(r *rand.Rand) []pcase {
 	out = append(out,
 		pcase{"replace:valid-empty-document", M{"action": "replace", "document": M{}}, true},
 		pcase{"replace:extra-member", M{"action": "replace", "document": M{"publicKeys": A{validKey(r, "k1")}, "alsoKnownAs": A{"x"}}}, false},
+		// a replace document holding no key and no service entry at all, and a member it may not have
+		pcase{"replace:only-a-forbidden-member-id", M{"action": "replace", "document": M{"id": "did:example:123"}}, false},
+		pcase{"replace:only-a-forbidden-member-publicKey", M{"action": "replace", "document": M{"publicKey": A{validKey(r, "k1")}}}, false},
+		pcase{"replace:empty-lists-and-a-forbidden-member", M{"action": "replace", "document": M{"publicKeys": A{}, "services": A{}, "alsoKnownAs": A{"https://a.example"}}}, false},
+		pcase{"replace:null-lists-and-a-forbidden-member", M{"action": "replace", "document": M{"publicKeys": nil, "services": nil, "note": "x"}}, false},
+		pcase{"replace:non-object-entries-and-a-forbidden-member", M{"action": "replace", "document": M{"publicKeys": A{"junk"}, "extra": 1.0}}, false},
+		pcase{"replace:empty-lists", M{"action": "replace", "document": M{"publicKeys": A{}, "services": A{}}}, true},
 		pcase{"replace:document-not-object", M{"action": "replace", "document": A{}}, false},
 		pcase{"replace:missing-document", M{"action": "replace"}, false},
 	)
